@@ -160,6 +160,11 @@ OPS = [
   ("pair_whitespace_variant", "*", dup_entry("Pair", ws)),
   ("pair_reversed_whitespace_variant", "*", dup_entry("Pair", lambda k, rng: ws(rev(k, rng), rng), pick=NOT_SELF)),
   ("pair_reversed_labels_differ_only_in_case", "*", lambda items, info, rng: (lambda A: (bm.sec(items, "Pair")[1].extend([["%s-%s" % (A, A.upper()), "as.constant 1.0"], ["%s-%s" % (A.upper(), A), SECOND]]), (items, "%s-%s" % (A, A.upper()), "%s-%s" % (A.upper(), A)))[1])(info["species"][0] if info["species"][0].upper() != info["species"][0] else info["species"][0] + "x")),
+  # one label is the other followed by a character that sorts below / above '-' (ions: Na and Na+; Fe and Fe2):
+  # joined label strings order differently from label tuples
+  ("pair_reversed_one_label_prefix_of_other", "*", lambda items, info, rng: (lambda A, B, fl: (bm.sec(items, "Pair")[1].extend([["%s-%s" % ((A, B) if fl else (B, A)), "as.constant 1.0"], ["%s-%s" % ((B, A) if fl else (A, B)), SECOND]]),
+      (items, "%s-%s" % ((A, B) if fl else (B, A)), "%s-%s" % ((B, A) if fl else (A, B))))[1])("Qq", "Qq" + rng.choice(["+", "+2", "*", "1", "_", "a", ",", "!", "."]), rng.random() < 0.5)),
+  ("added_twice_pair_reversed_one_label_prefix_of_other", "*", added_twice("Pair", lambda info, rng: rng.choice(["Qq-Qq%s", "Qq%s-Qq"]) % rng.choice(["+", "+2", "*", "1", "a", "!"]), rev)),
   ("embed_same_key_twice", "eam fs adp", dup_entry("EAM-Embed", SAME)),
   ("density_same_key_twice", "eam adp", dup_entry("EAM-Density", SAME)),
   ("fs_density_same_key_twice", "fs", dup_entry("EAM-Density", SAME)),
